@@ -434,7 +434,8 @@ static void case_grid(Rng& rng, uint64_t index)
 		for(int j = 0; j < Ny; j++)
 		{
 			double v = (i + j) & 1 ? I(G.X[i], G.Y[j]) : I.Interpolate(G.X[i], G.Y[j]);
-			judge("2d-node-value-reproduced", std::fabs(v - G.F[i][j]), K_VAL * EPS * scale_around(std::min(i, Nx - 2), std::min(j, Ny - 2)), [&] { return J().i("i", i).i("j", j).d("got", v).d("f", G.F[i][j]); });
+			// at a node the bilinear form reduces to the node value itself, whichever adjacent cell serves the query: rounding scale = that value
+			judge("2d-node-value-reproduced", std::fabs(v - G.F[i][j]), K_VAL * EPS * std::fabs(G.F[i][j]), [&] { return J().i("i", i).i("j", j).d("got", v).d("f", G.F[i][j]); });
 		}
 	// interior points of cells, points on edges, neighbours of edges, extrapolation zone
 	int ncell = std::min((Nx - 1) * (Ny - 1), 60);
@@ -465,7 +466,9 @@ static void case_grid(Rng& rng, uint64_t index)
 				double S2 = std::max(S, cell_scale(i + 1, j));
 				double ve = I(xe, y), vm = I(prev(xe), y), vp = I(next(xe), y);
 				ld rl = ref(xe, y, i, j), rr = ref(xe, y, i + 1, j);
-				judge("2d-continuous-across-cell-edge", std::max((double) fabsl((ld) ve - rl), (double) fabsl((ld) ve - rr)), K_VAL * EPS * S2, [&] { return J().d("x_edge", xe).d("y", y).d("got", ve).d("ref_left_cell", (double) rl).d("ref_right_cell", (double) rr); });
+				// exactly on the shared edge only its two end nodes contribute (the weights of the other corners vanish): their magnitudes set the rounding scale
+				double Se = std::max(std::fabs(G.F[i + 1][j]), std::fabs(G.F[i + 1][j + 1]));
+				judge("2d-continuous-across-cell-edge", std::max((double) fabsl((ld) ve - rl), (double) fabsl((ld) ve - rr)), K_VAL * EPS * Se, [&] { return J().d("x_edge", xe).d("y", y).d("got", ve).d("ref_left_cell", (double) rl).d("ref_right_cell", (double) rr); });
 				double slope = 4 * S2 / std::min(hx, G.X[i + 2] - G.X[i + 1]);
 				judge("2d-continuous-across-cell-edge", std::max(std::fabs(vm - ve), std::fabs(vp - ve)), K_VAL * EPS * S2 + slope * 2 * ulp(xe), [&] { return J().d("x_edge", xe).d("y", y).d("left", vm).d("on", ve).d("right", vp); });
 			}
@@ -479,7 +482,8 @@ static void case_grid(Rng& rng, uint64_t index)
 				double S2 = std::max(S, cell_scale(i, j + 1));
 				double ve = I(x, ye), vm = I(x, prev(ye)), vp = I(x, next(ye));
 				ld rl = ref(x, ye, i, j), rr = ref(x, ye, i, j + 1);
-				judge("2d-continuous-across-cell-edge", std::max((double) fabsl((ld) ve - rl), (double) fabsl((ld) ve - rr)), K_VAL * EPS * S2, [&] { return J().d("x", x).d("y_edge", ye).d("got", ve).d("ref_lower_cell", (double) rl).d("ref_upper_cell", (double) rr); });
+				double Se = std::max(std::fabs(G.F[i][j + 1]), std::fabs(G.F[i + 1][j + 1]));
+				judge("2d-continuous-across-cell-edge", std::max((double) fabsl((ld) ve - rl), (double) fabsl((ld) ve - rr)), K_VAL * EPS * Se, [&] { return J().d("x", x).d("y_edge", ye).d("got", ve).d("ref_lower_cell", (double) rl).d("ref_upper_cell", (double) rr); });
 				double slope = 4 * S2 / std::min(hy, G.Y[j + 2] - G.Y[j + 1]);
 				judge("2d-continuous-across-cell-edge", std::max(std::fabs(vm - ve), std::fabs(vp - ve)), K_VAL * EPS * S2 + slope * 2 * ulp(ye), [&] { return J().d("x", x).d("y_edge", ye).d("below", vm).d("on", ve).d("above", vp); });
 			}
